@@ -187,10 +187,15 @@ func vpH_C14_passthrough() {
 // vpH_C14_T_watch: a consumer that calls Updates() before every receive (as watchLoop does) while the client's
 // watcher emits a sequence of up to 4 entries / nil markers and then optionally closes: the consumer gets
 // exactly that sequence, in order, once, through one stable channel, with at most one forwarding goroutine.
-func vpH_C14_T_watch() {
+func vpH_C14_T_watch() { vpC14Watch(4) }
+
+// thorough: up to 7 entries / markers
+func vpH_C14_T_watch7() { vpC14Watch(7) }
+
+func vpC14Watch(maxN int) {
 	uw := &vpNWatcher{ch: make(chan nats.KeyValueEntry, 8)}
 	a := &natsWatcherAdapter{watcher: uw}
-	n := 1 + vpChoose("emitted", 4)
+	n := 1 + vpChoose("emitted", maxN)
 	var sent []uint64 // 0 = nil marker
 	for i := 0; i < n; i++ {
 		if vpChoose("kind", 2) == 0 {
